@@ -11,9 +11,9 @@
              P:P:POS:LEN:DL:HASHBYTES  put        G:P:POS:LEN  get
              HO:A:TR FileHasher::new_cached       HC drop
              H:P:POS:LEN  hash_file               X:P:POS:LEN  hash_transformed
-   output line:  <id> | <one token per op> | sd=<b> md=<b> pre=<b> none=<b> flag=<b> hits=<n>
-     (sd/md/pre: stamp_determines_b / mtime_determines_b / preepoch_b over the worlds of the sequence;
-      none/flag: none_cmd_b / flag_switch_b over the hasher configurations; hits: calls answered from the cache)
+   output line:  <id> | <one token per op> | sd=<b> md=<b> frac=<b> hits=<n>
+     (sd/md/frac: stamp_determines_b / mtime_determines_b / preepoch_fraction_b over the worlds of the sequence;
+      hits: calls answered from the cache)
      token:  "."  for world / open / close ops ("i<INO>" for c)
              "nofile" | "ok@META" (put) | "n@META" | "s:DL:HASH@META" (get)
              "err" | "ok:HASH@META" (H) | "ok:DL:HASH@META" (X) | "panic"
@@ -39,7 +39,12 @@ let base64 (d : int list) : int list =
       c (a lsr 2) :: c (((a land 3) lsl 4) lor (b lsr 4)) :: c (((b land 15) lsl 2) lor (e lsr 6)) :: c (e land 63) :: go r
   in go d
 
-(* index -> (command string, --in-place, --no-copy, the function the command computes) *)
+(* index -> (command string, Transform.in_place, Transform.copy, the function the configuration computes)
+   copy = "$IN occurs in the command" and not --no-copy; entry 10 has copy forced to true by the harness
+   (API only; before ea68843 its id read "<none>").  11 / 12 used to get the same id "sed y/abc/xyz/ $IN --in-place":
+   11 passes --in-place to sed (edits the temporary copy, prints nothing), 12 is fclones' --in-place around a sed
+   that only prints (the file is read back unchanged).  Both are regression configurations now. *)
+let sedmap d = List.map (fun b -> if b >= 97 && b <= 99 then b + 23 else b) d
 let ttable : (string * bool * bool * (int list -> int list option)) array = [|
   ("cat", false, false, (fun d -> Some d));
   ("head -c 3", false, false, (fun d -> Some (take 3 d)));
@@ -47,20 +52,22 @@ let ttable : (string * bool * bool * (int list -> int list option)) array = [|
   ("base64 -w0", false, false, (fun d -> Some (base64 d)));
   ("false", false, false, (fun _ -> None));
   ("vk_failz", false, false, (fun d -> match d with 122 :: _ -> None | _ -> Some d));
-  ("sed -i y/abc/xyz/ $IN", false, false, (fun _ -> Some []));
-  ("sed -i y/abc/xyz/ $IN", true, false, (fun d -> Some (List.map (fun b -> if b >= 97 && b <= 99 then b + 23 else b) d)));
-  ("cat $IN", false, false, (fun d -> Some d));
+  ("sed -i y/abc/xyz/ $IN", false, true, (fun _ -> Some []));
+  ("sed -i y/abc/xyz/ $IN", true, true, (fun d -> Some (sedmap d)));
   ("cat $IN", false, true, (fun d -> Some d));
-  ("<none>", false, false, (fun d -> Some (take 2 d)));
+  ("cat $IN", false, false, (fun d -> Some d));
+  ("<none>", false, true, (fun d -> Some (take 2 d)));
+  ("sed y/abc/xyz/ $IN --in-place", false, true, (fun _ -> Some []));
+  ("sed y/abc/xyz/ $IN", true, true, (fun d -> Some d));
 |]
 
 let tconf_of_index i =
-  let (cmd, ip, nc, _) = ttable.(i) in { t_cmd = bytes_of_string cmd; t_inplace = ip; t_nocopy = nc }
+  let (cmd, ip, cp, _) = ttable.(i) in { t_cmd = bytes_of_string cmd; t_inplace = ip; t_copy = cp }
 
 let model_T (c : tconf) (d : n list) : n list option =
   let found = ref None in
-  Array.iter (fun (cmd, ip, nc, f) ->
-      if !found = None && bytes_of_string cmd = c.t_cmd && ip = c.t_inplace && nc = c.t_nocopy then found := Some f) ttable;
+  Array.iter (fun (cmd, ip, cp, f) ->
+      if !found = None && bytes_of_string cmd = c.t_cmd && ip = c.t_inplace && cp = c.t_copy then found := Some f) ttable;
   match !found with
   | None -> failwith "unknown transform"
   | Some f -> (match f (ints_of_ns d) with None -> None | Some r -> Some (ns_of_ints r))
@@ -154,6 +161,5 @@ let () = iter_lines (fun line ->
             | RPanic -> "panic"))
       | _ -> "EXN bad token " ^ tok) ops in
     let ws = List.rev !ms in
-    Printf.sprintf "%s | %s | sd=%s md=%s pre=%s none=%s flag=%s hits=%d" id (String.concat " " out)
-      (sob (stamp_determines_b ws)) (sob (mtime_determines_b ws)) (sob (preepoch_b ws))
-      (sob (none_cmd_b !cs)) (sob (flag_switch_b !cs)) !hits)
+    Printf.sprintf "%s | %s | sd=%s md=%s frac=%s hits=%d" id (String.concat " " out)
+      (sob (stamp_determines_b ws)) (sob (mtime_determines_b ws)) (sob (preepoch_fraction_b ws)) !hits)
